@@ -381,6 +381,14 @@ _add('C07', 'DeeprobModel.Props.LeafTheory', 'Deeprob.LeafTheory', ['isoPpf_cdf'
 _add('C01', 'DeeprobModel.Props.LeafTheory', 'Deeprob.LeafTheory', ['isoPdf_nonneg', 'iso_integral_one', 'uniform_integral_one', 'uniform_width_zero', 'bernoulli_sum_one',
      'categorical_sum_one', 'categorical_leaf_ok', 'equal_widths_readings_agree', 'edge_modes_as_coded'], [])
 _add('C06', 'DeeprobModel.Props.LeafTheory', 'Deeprob.LeafTheory', ['categorical_mode_is_argmax_category', 'bernoulli_mode_maximal', 'edge_modes_as_coded'], [])
+# round 5 (translator wave 5): the explicit-stack loops of to_pc / get_scopes extracted as step functions (tools/listprog.py), the
+# generic post-order machine and the closed end-to-end chain for to_pc
+_S5 = 'Deeprob.Oblig.Struct5'
+for _p in ('C12', 'C10', 'C04'):
+    _add(_p, _O + 'Struct5ToPc', _S5, ['toPcStep_as_coded', 'toPcLoop_as_coded', 'fold_toPc', 'getScopesStep_as_coded', 'getScopesLoop_as_coded',
+                                       'fold_getScopes'], ['cltree.to_pc.loop', 'cltree.get_scopes.loop'])
+    _add(_p, 'DeeprobModel.Props.E2EToPc', 'Deeprob.E2EToPc', ['e2e_to_pc_loop', 'e2e_to_pc', 'e2e_get_scopes'], [])
+    _add(_p, 'DeeprobModel.Lemmas.PostOrderLemmas', 'Deeprob.PostOrder', ['walk_subtree', 'run_eq_fold', 'distinct_ids_needed'], [])
 # round 5: the Gaussian leaf (density as SciPy evaluates it, normalisation, mode, raw moments of every order as integrals)
 _GT = 'Deeprob.GaussTheory'
 _add('C01', 'DeeprobModel.Props.GaussTheory', _GT, ['gauss_exp_logpdf', 'gauss_integral_one', 'gaussPdf_pos'], [])
